@@ -175,9 +175,10 @@ def _run_sequence(name, d, seq, acc, tag):
 
 
 def sequences(tier, small=False):
-  L = 3 if tier == "quick" else 4
-  if small: L = 2
+  L = 3 if tier == "quick" else 5
+  if small: L = 2 if tier == "quick" else 3
   letters = [(0, 0, 0), (9, 1, 0), (6, 3, 0), (9, 2, 1)]
+  if tier != "quick" and not small: letters.append((15, 0, 0))
   return [list(s) for s in itertools.product(letters, repeat=L)]
 
 
@@ -216,5 +217,5 @@ def finish(acc, tier):
          "non-trivial = distinct (design, sequence) pairs that revisit an earlier input letter (change suppression matters)",
     exhaustive=True, designs=len(acc.sets["nvars"]), max_vcd_vars=max(n for _, n in acc.sets["nvars"]),
     designs_with_shared_symbols=acc.size("designs_with_shared_symbols"),
-    bounds=dict(seq_len=3 if tier == "quick" else 4, letters=4),
+    bounds=dict(seq_len=3 if tier == "quick" else 5, letters=4 if tier == "quick" else 5),
   )
